@@ -169,7 +169,14 @@ fn run_workload(w: &[Txn], cfg: &Cfg, fail_at: u64, permanent: bool) -> (Outcome
                     }
                 }
             }
-            // reads keep returning correct committed data or an error
+            // reads keep returning correct committed data or an error. Before the failure has
+            // happened the read-back is skipped after some transactions: a read copies pages into the
+            // read cache, and pages that only ever lived in the write buffer behave differently when
+            // a later flush fails half-way
+            let fired_now = backend.mon.failed_calls.load(Ordering::SeqCst) > 0;
+            if !fired_now && (i as u64 + fail_at) % 3 != 0 && i + 1 < w.len() {
+                continue;
+            }
             match db.as_ref().unwrap().begin_read() {
                 Ok(rt) => match read_all(&rt) {
                     Ok(m) => {
